@@ -245,7 +245,9 @@ impl DatabaseCheckpoint {
 		let wal_source = checkpoint_path.join("wal");
 		let wal_dest = self.core.opts.wal_dir();
 		if wal_source.exists() {
-			Self::copy_directory_sync(&wal_source, &wal_dest)?;
+			// WAL segments are appended to by the restored store: they must be
+			// copies, never hard links into the checkpoint.
+			copy_dir_all(&wal_source, &wal_dest).map_err(|e| Error::Io(Arc::new(e)))?;
 		}
 
 		// Restore level manifest directory
